@@ -15,6 +15,7 @@ import (
 	"time"
 
 	"github.com/tochemey/goakt/v4/actor"
+	"github.com/tochemey/goakt/v4/log"
 	"github.com/tochemey/goakt/v4/remote"
 	"github.com/tochemey/goakt/v4/test/data/testpb"
 	"github.com/tochemey/goakt/v4/zzverif/simglue"
@@ -100,15 +101,55 @@ type remotePair struct {
 	Net   *simnet.Network
 	PortA int
 	PortB int
+	// Warn holds what the two systems logged at warn/error level ("sysA: ..."),
+	// only for pairs started with startRemotePairLogged.
+	Warn []string
+}
+
+// warnLog is a goakt logger that keeps the warn- and error-level lines of the
+// product and discards the rest. LogLevel/Enabled stay those of the discard
+// logger, so no level-guarded branch of goakt changes; package scen is not
+// instrumented, so recording adds no scheduling point.
+type warnLog struct {
+	log.Logger
+	node string
+	into *[]string
+}
+
+func (l warnLog) rec(s string)                             { *l.into = append(*l.into, l.node+": "+s) }
+func (l warnLog) Warn(v ...any)                            { l.rec(fmt.Sprint(v...)) }
+func (l warnLog) Warnf(f string, v ...any)                 { l.rec(fmt.Sprintf(f, v...)) }
+func (l warnLog) Error(v ...any)                           { l.rec(fmt.Sprint(v...)) }
+func (l warnLog) Errorf(f string, v ...any)                { l.rec(fmt.Sprintf(f, v...)) }
+func (l warnLog) With(keyValues ...any) log.Logger         { return l }
+func (l warnLog) WarnContext(_ context.Context, v ...any)  { l.rec(fmt.Sprint(v...)) }
+func (l warnLog) ErrorContext(_ context.Context, v ...any) { l.rec(fmt.Sprint(v...)) }
+func (l warnLog) WarnfContext(_ context.Context, f string, v ...any) {
+	l.rec(fmt.Sprintf(f, v...))
+}
+func (l warnLog) ErrorfContext(_ context.Context, f string, v ...any) {
+	l.rec(fmt.Sprintf(f, v...))
 }
 
 // startRemotePair starts two systems A (port 9001) and B (9002) over simnet.
 func startRemotePair(c *Ctx, cfg simnet.Config, ropts ...remote.Option) *remotePair {
+	return startRemotePairOpt(c, cfg, false, ropts...)
+}
+
+// startRemotePairLogged is startRemotePair with the product's warnings kept in rp.Warn.
+func startRemotePairLogged(c *Ctx, cfg simnet.Config, ropts ...remote.Option) *remotePair {
+	return startRemotePairOpt(c, cfg, true, ropts...)
+}
+
+func startRemotePairOpt(c *Ctx, cfg simnet.Config, logged bool, ropts ...remote.Option) *remotePair {
 	rp := &remotePair{PortA: 9001, PortB: 9002}
 	rp.Net = simglue.EnableNet(c.F, cfg)
 	opts := sysOpts(c)
 	mk := func(name string, port int) *Sys {
 		o := append([]actor.Option{actor.WithRemote(remote.NewConfig("127.0.0.1", port, ropts...))}, opts...)
+		if logged {
+			o = append(o, actor.WithLogger(warnLog{Logger: log.DiscardLogger, node: name, into: &rp.Warn}))
+		}
 		return StartSys(c, name, o...)
 	}
 	rp.A = mk("sysA", rp.PortA)
@@ -183,7 +224,7 @@ func c27Run(c *Ctx) {
 		cfg = simnet.Config{Fragment: cfg.Fragment}
 	}
 	c.Note("net", fmt.Sprintf("%+v", cfg))
-	rp := startRemotePair(c, cfg)
+	rp := startRemotePairLogged(c, cfg)
 	st := &c27State{rp: rp, accepted: map[int][2]int{}}
 	c.state = st
 	done := false
@@ -323,7 +364,20 @@ func c27Finish(c *Ctx) {
 	for _, t := range tags {
 		if count[t] == 0 && deadCount[t] == 0 {
 			cs := st.accepted[t]
-			c.Fail("remote-tell-silently-dropped", "RemoteTell", "message tag %d (caller %d seq %d) was accepted (Tell returned nil) but was neither delivered nor published to the sender's dead letters within 30s (simulated); net stats %v; dead letters %v; log tail: %s", t, cs[0], cs[1], st.rp.Net.Stats, st.dead, st.rp.A.Tail(16))
+			// Where was it lost? If the sender's own dead-letter actor failed while
+			// handling a letter, the remoting layer did report the batch and the
+			// letter was lost one stage later: a different defect, a different signature.
+			comp := "RemoteTell"
+			var warn []string
+			for _, l := range st.rp.Warn {
+				if strings.HasPrefix(l, "sysA: ") && strings.Contains(l, "child=GoAktDeadletter failing") {
+					comp = "RemoteTell:sender-dead-letter-actor-panicked"
+				}
+				if len(warn) < 6 {
+					warn = append(warn, l[:min(len(l), 160)])
+				}
+			}
+			c.Fail("remote-tell-silently-dropped", comp, "message tag %d (caller %d seq %d) was accepted (Tell returned nil) but was neither delivered nor published to the sender's dead letters within 30s (simulated); net stats %v; dead letters %v; product warnings %q; log tail: %s", t, cs[0], cs[1], st.rp.Net.Stats, st.dead, warn, st.rp.A.Tail(16))
 			return
 		}
 		if deadCount[t] > 1 {
